@@ -106,6 +106,7 @@ def oracle(ck, tier, deep):
             origin = ({"t": 0, "u": 0, "c": h // 2, "b": h - 1, "l": h - 1}[v], {"l": 0, "c": w // 2, "r": w - 1}[hz])
             o_arg = name
         rmax = RMAX[int(rng.integers(0, len(RMAX)))] if rng.random() < 0.7 else int(rng.integers(6, 20))
+        rmax_arg = np.int64(rmax) if isinstance(rmax, int) and rng.random() < 0.5 else rmax        # (a radius taken from an array)
         method = ["nearest", "linear"][int(rng.integers(0, 2))]
         usin = bool(rng.integers(0, 2))
         coeffs = rng.normal(size=N)
@@ -118,7 +119,7 @@ def oracle(ck, tier, deep):
                    use_sin=usin, weights=wt is not None, coeffs=coeffs.tolist())
         sig = dict(site="Distributions", clause="exact-recovery", method=method)
         try:
-            D = quiet(vmi.Distributions, origin=o_arg, rmax=rmax, order=order, odd=odd, use_sin=usin, weights=wt, method=method)
+            D = quiet(vmi.Distributions, origin=o_arg, rmax=rmax_arg, order=order, odd=odd, use_sin=usin, weights=wt, method=method)
             res = quiet(D.image, im)
             cn = res.cos()
         except Exception as e:
@@ -214,37 +215,46 @@ def oracle(ck, tier, deep):
         h, w = (int(v) for v in rng.integers(15, 40, size=2))
         dt = [np.uint8, np.uint16, np.int32][int(rng.integers(0, 3))]
         im = rng.integers(0, 250 if dt is np.uint8 else 60000, size=(h, w)).astype(dt)
-        origin = (int(rng.integers(2, h - 2)), int(rng.integers(2, w - 2)))
+        origin = (int(rng.integers(2, h - 2)), int(rng.integers(2, w - 2))) if rng.random() < 0.6 else \
+                 (int(rng.choice([0, h - 1])), int(rng.choice([0, w - 1])))                 # (corner: no folding)
         order = int(rng.choice([0, 2, 4]))
-        method = ["nearest", "linear"][int(rng.integers(0, 2))]
-        wts = None if rng.random() < 0.6 else rng.random((h, w)) + 0.2
-        ck.count(("S.dtype", str(np.dtype(dt)), order, method, wts is None), suite="S.recover")
+        method = ["nearest", "linear", "remap"][int(rng.integers(0, 3))]
+        u = rng.random()
+        wts = None if u < 0.4 else rng.random((h, w)) + 0.2 if u < 0.7 else rng.integers(1, 4, size=(h, w)).astype([np.uint8, np.int16][int(rng.integers(0, 2))])
+        ck.count(("S.dtype", str(np.dtype(dt)), order, method, "none" if wts is None else str(wts.dtype), origin[0] in (0, h - 1)), suite="S.recover")
         try:
             a = quiet(quiet(vmi.Distributions, origin=origin, order=order, method=method, weights=wts).image, im).cos()
-            b = quiet(quiet(vmi.Distributions, origin=origin, order=order, method=method, weights=wts).image, im.astype(np.float64)).cos()
+            b = quiet(quiet(vmi.Distributions, origin=origin, order=order, method=method,
+                            weights=None if wts is None else wts.astype(np.float64)).image, im.astype(np.float64)).cos()
         except Exception as e:
             ck.violation(dict(site="Distributions", clause="exception"), dict(shape=[h, w], dtype=str(np.dtype(dt))), f"{type(e).__name__}: {e}")
             continue
         ok = np.isfinite(a) & np.isfinite(b)
         if a.shape != b.shape or np.abs(a[ok] - b[ok]).max(initial=0.0) > 1e-9 * max(1.0, np.abs(b[ok]).max(initial=0.0)):
-            ck.violation(dict(site="Distributions", clause="image-dtype"), dict(shape=[h, w], origin=list(origin), order=order, method=method, dtype=str(np.dtype(dt))),
-                         f"a {np.dtype(dt)} image gives distributions different from its float64 copy")
+            ck.violation(dict(site="Distributions", clause="image-dtype"), dict(shape=[h, w], origin=list(origin), order=order, method=method, dtype=str(np.dtype(dt)),
+                                                                                weights=None if wts is None else str(wts.dtype)),
+                         f"a {np.dtype(dt)} image (weights: {None if wts is None else wts.dtype}) gives distributions different from the float64 copies")
     # anisotropy parameter of a noiseless curve
     for _ in range(40 if not deep else 400):
         beta, A = float(rng.uniform(-1, 2)), float(rng.uniform(0.1, 50))
+        if rng.random() < 0.3:
+            beta = float(rng.choice([-1.0, 2.0]))                 # the physical limits themselves
+        if rng.random() < 0.4:
+            A = float(10 ** rng.uniform(-12, 9))                  # any A > 0
         nth = int(rng.integers(30, 200))
         theta = np.sort(rng.uniform(-np.pi, np.pi, size=nth))
         inten = A * (1 + beta * (3 * np.cos(theta) ** 2 - 1) / 2)
         tr = None if rng.random() < 0.5 else [(-2.5, -0.5), (0.4, 2.8)]
         ck.count(("S.beta", tr is None, round(beta)), suite="S.anisotropy")
         try:
-            (b, db), (a, da) = quiet(vmi.anisotropy_parameter, theta, inten, theta_ranges=tr, mode="raw")
+            mode = ["raw", "reject", None][int(rng.integers(0, 3))]                 # None: the default
+            (b, db), (a, da) = quiet(vmi.anisotropy_parameter, theta, inten, theta_ranges=tr, **({} if mode is None else dict(mode=mode)))
         except Exception as e:
             ck.violation(dict(site="anisotropy_parameter", clause="exception"), dict(beta=beta, A=A), f"{type(e).__name__}: {e}")
             continue
-        if abs(b - beta) > 1e-6 or abs(a - A) > 1e-6 * A:
-            ck.violation(dict(site="anisotropy_parameter", clause="beta"), dict(beta=beta, A=A, n=nth, theta_ranges=tr),
-                         f"fitted (beta, A) = ({b}, {a}) for a noiseless curve with ({beta}, {A})")
+        if not (abs(b - beta) <= 1e-6 and abs(a - A) <= 1e-6 * A):
+            ck.violation(dict(site="anisotropy_parameter", clause="beta"), dict(beta=beta, A=A, n=nth, theta_ranges=tr, mode=mode),
+                         f"fitted (beta, A) = ({b}, {a}) for a noiseless curve with ({beta}, {A}), mode={mode}")
 
 
 def run(tier):
